@@ -28,7 +28,7 @@ Proof. exact zero_len_commutes. Qed.
 
 (* (4) the merge forgets the order in which the blocks arrived (keys of blocks are xref keys, hence distinct) *)
 Theorem C08_merge_perm_invariant :
-  forall bl bl' base, NoDup (map fst bl) -> Permutation bl' bl -> merge bl' base = merge bl base.
+  forall xc bl bl' base, NoDup (map fst bl) -> Permutation bl' bl -> merge xc bl' base = merge xc bl base.
 Proof. exact merge_sched_invariant. Qed.
 
 (* (5) inside one object stream, cutting the index into parallel chunks is irrelevant *)
@@ -41,7 +41,7 @@ Theorem C08_permute_is_permutation :
   forall (p : list nat) (l : list block), Permutation p (seq 0 (length l)) -> Permutation (permute p l) l.
 Proof. intros p l. apply permute_perm. Qed.
 
-(* ---- the code before commit f28e935 ([merge_pinned]: blocks merged in completion order) ---- *)
+(* ---- the code before commits f28e935 and 44beb46 ([merge_pinned]: blocks merged in completion order) ---- *)
 (* (7) conditional: when no object number has two different bodies, the old merge was order-independent too *)
 Theorem C08_pinned_merge_perm_invariant :
   forall bl, blocks_agree bl -> forall bl' base, msorted base -> Permutation bl bl' ->
@@ -65,9 +65,10 @@ Theorem C08_example :
   file_wf ex_file /\ sched_valid ex_file ex_sched /\
   s_blocks ex_sched <> blocks_of (outcomes ex_file) /\
   ~ blocks_agree (blocks_of (outcomes ex_file)) /\
-  lookup (d_objects (load_par ex_sched ex_file)) (2, 0)%N = Some (OStream [(K_Length, OInt 3)] (bs "234")) /\
+  lookup (d_objects (load_par ex_sched ex_file)) (2, 0)%N = Some (OStream [(K_Length, OInt 5)] (bs "23456")) /\
   lookup (d_objects (load_par ex_sched ex_file)) (1, 0)%N = Some (OName (bs "Plain")) /\
-  lookup (d_objects (load_par ex_sched ex_file)) (10, 0)%N = Some (OInt 3).
+  lookup (d_objects (load_par ex_sched ex_file)) (10, 0)%N = Some (OInt 5) /\
+  lookup (d_objects (load_par ex_sched ex_file)) (11, 0)%N = Some (OBool true).
 Proof. exact example_holds. Qed.
 
 Theorem C08_example_witness_repaired :
